@@ -5,11 +5,13 @@
 //! env:   VERIF_SEED=<int> (default fixed), VERIF_TIER, HESIM_WORKERS
 
 mod c15;
+mod c17;
 mod driver;
 mod gen;
 mod io_fault;
 mod objs;
 mod prng;
+mod sched;
 mod util;
 
 use driver::Tier;
@@ -95,6 +97,7 @@ fn main() {
         }
         let code = match cmd {
             "C15" => c15::replay(&doc),
+            "C17" => c17::replay(&doc),
             _ => {
                 eprintln!("unknown property {}", cmd);
                 2
@@ -105,6 +108,7 @@ fn main() {
     println!("VERIF_SEED={} tier={} workers={}", seed, tier.name(), driver::workers());
     let code = match cmd {
         "C15" => c15::run(tier, seed),
+        "C17" => c17::run(tier, seed),
         _ => {
             eprintln!("unknown command {}", cmd);
             2
